@@ -48,13 +48,29 @@ GEN_ASSUME = [
 ]
 
 
+def _ga_env():
+    """synthetic gA data sets (written by the repo's own encoder) for the four supported isotopes and processes, so that the BxDecay0-only
+    modes 21-24 can be initialised: {BXDECAY0_DBD_GA_DATA_DIR: dir}"""
+    import gatool
+    base = os.path.join(BUILD, 'run', 'gadata')
+    import shutil
+    shutil.rmtree(base, ignore_errors=True)
+    enc = gatool.load_encoder()
+    n = 12
+    for iso, q in (('Se82', 2.998), ('Mo100', 3.034), ('Cd116', 2.813), ('Nd150', 3.371)):
+        for k, proc in enumerate(('g0', 'g2', 'g22', 'g4')):
+            rows = [[(1.0 + 0.2 * k) * (1 + i) * (1 + j) * max(0.0, q - 0.2 - 0.2 * (i + j)) for j in range(n - i)] for i in range(n)]
+            gatool.make_dataset(enc, rows, 0.1, 0.2, q, os.path.join(base, 'data/dbd_gA/v1.0', iso, proc), isotope=iso, mode=proc)
+    return {'BXDECAY0_DBD_GA_DATA_DIR': base}
+
+
 def _gencheck(prop, tier, variant='fast', extra=None, tag=None):
     build = vlib.build_ref()  # refdict.inc only (no Fortran linked)
     b = compile_bin('gencheck', ['checks/gencheck.cc'], variant, inc=[build])
     args = ['--prop', prop, '--seed', str(seed()), '--tier', tier, '--known', known_tsv(prop)] + (extra or [])
     if variant == 'san':
         args.append('--breadcrumb')
-    return run_native(b, args, NCPU, tag or prop)
+    return run_native(b, args, NCPU, tag or prop, extra_env=_ga_env())
 
 
 def check_C03(tier):
@@ -66,7 +82,7 @@ def check_C03(tier):
             'toallevents>=1; non-trivial & distinct = distinct (configuration, window class, cascade signature, tail class of consumed deviates)')
     return verdict(agg, tier, t0, rule, GEN_ASSUME + ['tolerance 3 keV on the energy budget (tabulated-energy rounding), 1e-6 MeV on window bounds (stored as float)',
                                                      'for Bi214/Pb214/Po218/Rn222 only the primary leptons/X-rays are counted (the follow-up alpha chain is not part of the 2b budget)',
-                                                     'gA modes 21-24 are exercised in C14 (synthetic data set), not here'], min_eval=1000)
+                                                     'gA modes 21-24 run on synthetic data sets written by the repo\'s own encoder (see C14) with the isotope\'s Q-value'], min_eval=1000)
 
 
 def check_C04(tier):
@@ -218,7 +234,7 @@ def check_C06(tier):
     t0 = time.time()
     b = compile_bin('gridcheck', ['checks/gridcheck.cc'], 'fast', ref=True)
     shots = '80' if tier == 'thorough' else '20'
-    reps = run_native(b, ['--seed', str(seed()), '--shots', shots, '--known', known_tsv('C06')], NCPU, 'C06')
+    reps = run_native(b, ['--seed', str(seed()), '--shots', shots, '--known', known_tsv('C06')], NCPU, 'C06', extra_env=_ga_env())
     agg = Agg('C06')
     agg.add(reps)
     rule = ('finite grid enumerated completely in both tiers: (51 published isotopes + 7 names both sides must refuse) x levels -1..17 x modes 0..25, through genbbsub '
@@ -226,7 +242,7 @@ def check_C06(tier):
             'non-capable modes); every accepted legacy point shoots N events through the C03/C04 predicates (N=6 quick, 60 thorough); every rejected point must refuse '
             'shoot(); 24 labels round-trip, 7 unknown labels; distinct = grid points')
     return verdict(agg, tier, t0, rule, REF_ASSUME[:2] + ['names are compared only on published spellings and on names both the reference and the port must refuse (the reference\'s '
-                   'case-insensitive positional matching is not a published contract)', 'positive gA points (modes 21-24 on Se82/Mo100/Cd116/Nd150 level 0) need a data set and are exercised in C14; their negatives are enumerated here',
+                   'case-insensitive positional matching is not a published contract)', 'positive gA points (modes 21-24 on Se82/Mo100/Cd116/Nd150 level 0) are initialised on synthetic data sets written by the repo\'s own encoder',
                    'the reference is restored to its pristine static image before every point (its itrans02 is unassigned for Dy156 levels 12/13)'],
                    extra_cov={'exhaustive': True}, min_eval=10000)
 
@@ -333,6 +349,31 @@ def check_C15(tier):
                                          'VERIF-ORACLE-VIOLATION traps mark semantic violations (garbage loads), sanitizer reports mark memory errors'], extra_cov=cov, min_eval=10000)
 
 
+def check_C14(tier):
+    t0 = time.time()
+    b = compile_bin('gacheck', ['checks/gacheck.cc'], 'san')
+    out = os.path.join(BUILD, 'run', 'c14-report.json')
+    if os.path.exists(out):
+        os.remove(out)
+    env = run_env()
+    r = subprocess.run(['python3-vt', os.path.join(ROOT, 'py/c14.py'), b, tier, out], stdout=subprocess.PIPE, stderr=subprocess.STDOUT, text=True, env=env)
+    agg = Agg('C14')
+    if not os.path.exists(out):
+        agg.broken.append('c14.py produced no report: ' + r.stdout[-1500:])
+    else:
+        rep = json.load(open(out))
+        rep['rc'] = 0
+        agg.add([rep])
+    rule = ('Hypothesis (seeded by VERIF_SEED) builds synthetic triangular p.d.f. tables (n=2..40, 5 e_min x 4 steps, Q>=e_min+e_max incl. equality, shapes: flat, peaked, geometric heavy tails '
+            'giving cumulative values 0.9..9 up to 16 nines, reversed tails, sparse with zero cells) and runs the REAL mkocdfdata.py functions of the repo to write tab_pdf.data/tab_ocdf.data; '
+            'the native checker (ASan/UBSan build) then verifies: decoder == encoder input to the encoding precision, tables monotone in [0,1] ending at 1, inverse-transform samples non-negative, '
+            'sum<=Q, inside the cell an independent binary search selects, monotone in each deviate (4000/10000 deviate pairs per data set: uniform, grid, tails, straddling table entries), '
+            'shoot() == sampled energies and opening angle for both methods, and mode 21 through decay0_generator on the same files installed as Mo100; '
+            'non-trivial & distinct = data sets whose encoded rows contain a ^n with n>=3 and a !1')
+    return verdict(agg, tier, t0, rule, ['the encoder is the repo\'s own mkocdfdata.py imported as a module (fill_tab_cdf, fill_tab_ncdf, save_tab_pdf, save_tab_ncdf)',
+                                         'every table row carries some probability (the encoder divides by the row sum)', 'Q exceeds e_min+e_max by at least 2e-4 MeV (with exact equality the p.d.f. loader\'s own e1+e2<=Q predicate is decided by rounding)'], min_eval=1000)
+
+
 def check_C08(tier):
     """sanitizer builds (ASan+UBSan+_GLIBCXX_ASSERTIONS) of the generation drivers + structure-aware libFuzzer target"""
     t0 = time.time()
@@ -382,6 +423,9 @@ def replay(prop, path):
         src = dict((n, s2) for n, s2, _ in C15_TARGETS).get(name, 'fuzz/%s.cc' % name)
         b = compile_bin(name, [src], 'fuzz', inc=[os.path.join(ROOT, 'fuzz'), vlib.build_ref()])
         return subprocess.run([b, path], env=run_env()).returncode
+    if prop == 'C14':
+        b = compile_bin('gacheck', ['checks/gacheck.cc'], 'san')
+        return subprocess.run(['python3-vt', os.path.join(ROOT, 'py/c14.py'), b, 'quick', os.path.join(BUILD, 'run', 'c14-replay.json'), '--replay', path], env=run_env()).returncode
     if prop == 'C10':
         b = compile_bin('mdlcheck', ['checks/mdlcheck.cc'], 'fast')
         return subprocess.run([b, '--replay', path], env=run_env()).returncode
